@@ -52,8 +52,18 @@ func (w *w2World) Gen(rng *rand.Rand, property, tier string) (any, simrt.Sched) 
 		uniq++
 		op := w2Op{GapMs: []int64{0, 0, 1, 10, 100}[rng.Intn(5)], Fields: map[string]string{}}
 		pathFields := func() {
-			// one unique value at least, so that every read is attributable to one write
-			op.Fields["maxReaders"] = fmt.Sprint(100 + uniq)
+			// mostly one unique value at least, so that every read is attributable to one write;
+			// now and then a value from a small pool shared by paths and defaults (the initial
+			// default included): an explicit setting that equals what the path inherits at that
+			// moment must still pin the value when the defaults change later
+			switch rng.Intn(6) {
+			case 0:
+				op.Fields["maxReaders"] = []string{"0", "7", "8"}[rng.Intn(3)]
+			case 1:
+				// no maxReaders at all in this payload
+			default:
+				op.Fields["maxReaders"] = fmt.Sprint(100 + uniq)
+			}
 			switch rng.Intn(5) {
 			case 0:
 				op.Fields["overridePublisher"] = []string{"true", "false"}[rng.Intn(2)]
